@@ -1,5 +1,5 @@
 CFG = {
-    "modules": ["Parsley.Props.C10", "Parsley.Props.C10Full", "Parsley.Props.C10Rules"],
+    "modules": ["Parsley.Props.C10", "Parsley.Props.C10Full", "Parsley.Props.C10Rules", "Parsley.Props.C10Machine"],
     "theorems": [
         # structural theorems over the REGENERATED shipped specification (decide +kernel)
         "Parsley.C10.shipped_catalog_keys", "Parsley.C10.shipped_root_keys",
@@ -28,6 +28,8 @@ CFG = {
         "Parsley.C10.names_entry_by_reference_witness",
         # C10b: the acceptance half with EVERY optional entry of the menu
         "Parsley.C10.menu_closed", "Parsley.C10.S'_closed", "Parsley.C10.rendered_conforms",
+        # C08e: the acceptance half for the MACHINE (code as it is), all documents (from C08 machine_complete)
+        "Parsley.C10.shipped_wf", "Parsley.C10.machine_accepts_rendered", "Parsley.C10.machine_accepts_rendered_fuel",
     ],
     "partial": {
         "Parsley.C10.rendered_conforms_partial":
@@ -38,10 +40,12 @@ CFG = {
             "EVERY well-formed d and EVERY valid single-rule mutation m of all six classes at every position and depth (no spec-gap "
             "class exists: the judge's `spec-gap-*` verdicts are provably unreachable for valid mutations); "
             "`date_recogniser_eq_regex_shape` proves the rules' date recogniser = the model of DateStringPredicate for every byte "
-            "string. STILL NOT PROVED: acceptance by the MACHINE (Model/TypeCheck.lean) of rendered documents: C08's "
-            "machine_eq_conforms_partial covers leaf checks only, the catalog is a dictionary type with a recursive disjunction below "
-            "it, and the machine genuinely differs from the declarative reading on mutated documents (memo leak, "
-            "any-entry-skips-indirect: known findings with witnesses); machine acceptance/rejection is covered by the correspondence "
+            "string. ACCEPTANCE BY THE MACHINE (Model/TypeCheck.lean, the code as it is) of every rendered well-formed document with "
+            "arbitrary optional entries is now a theorem too: `machine_accepts_rendered` (Props/C10Machine.lean), from rendered_conforms, "
+            "C08's completeness theorem machine_complete (all specifications, disjunctions included) and the closed fact `shipped_wf` "
+            "about the regenerated term. STILL NOT PROVED (and false): REJECTION by the machine of mutated documents - the machine "
+            "genuinely differs from the declarative reading there (memo leak, "
+            "any-entry-skips-indirect: known findings with witnesses); machine rejection is covered by the correspondence "
             "run (model = real checker on every case) only. Boundary made explicit: `Mutation.valid` excludes name-dictionary entries "
             "given BY REFERENCE (`refEntry`); `names_entry_by_reference_witness` shows the shipped specification accepts "
             "/Names << /Dests 2 0 R >> with 2 0 R a page-tree node (the name-tree predicate is applied to the target).",
@@ -91,9 +95,11 @@ LEVEL = {
             "specification: rendered_conforms - every well-formed document of any shape/fan-out/depth/numbering WITH arbitrary optional "
             "entries of the menu conforms - and mutated_rejected - every valid single-rule mutation (six classes) of every well-formed "
             "document at every position and depth does not conform -, and date_recogniser_eq_regex_shape (rules' date recogniser = "
-            "model of DateStringPredicate for every byte string). Partial only in that acceptance/rejection by the MACHINE on these "
-            "documents is not a theorem (the machine differs from the declarative reading exactly on the recorded engine findings) "
-            "and is decided by the run. The run replays every valid single-rule mutation at every position of 5 documents plus "
+            "model of DateStringPredicate for every byte string); and the acceptance half for the MACHINE itself, all documents: "
+            "machine_accepts_rendered (the model of the real check_type accepts every rendered well-formed document with arbitrary "
+            "optional entries; from rendered_conforms and C08 machine_complete). Partial only in that REJECTION by the MACHINE of mutated "
+            "documents is not a theorem (the machine differs from the declarative reading exactly on the recorded engine findings, all "
+            "false accepts) and is decided by the run. The run replays every valid single-rule mutation at every position of 5 documents plus "
             "random trees through the real checker, the model and the rule oracle. Found and fixed: NumberTreePredicate read /Names "
             "(C10-01), years in non-ASCII digits accepted (C10-02). Remaining engine findings surface as accepted violations "
             "(/Parent given directly; a violation >= 2 levels deep next to an equal sibling): classified known, with witnesses.",
